@@ -64,6 +64,12 @@ def parseBools : Nat → List String → Option (List Bool × List String)
 
 def parseEvent (ws : List String) : Option Event :=
   match ws with
+  | "ghpartial" :: k :: t :: n :: rest => do
+    let k ← k.toNat?
+    let t ← t.toNat?
+    let n ← n.toNat?
+    let (ps, _) ← parsePRs n rest
+    pure (.githubPartial { targetSha := t, prs := ps } k)
   | "gh" :: t :: n :: rest => do
     let t ← t.toNat?
     let n ← n.toNat?
